@@ -878,6 +878,13 @@ func gnNodeStream(rng *rand.Rand, n int, tier string, out string) (*Summary, err
 					if label == "" || label == "odd" {
 						tv, want, label = gnOddValue(rng), "", "odd"
 					}
+					if bv, isBool := tv.GetValue().(*gpb.TypedValue_BoolVal); isBool && !bv.BoolVal && s.entry != nil && (s.entry.IsLeaf() || s.entry.IsLeafList()) {
+						if _, lt := resolveType(s.entry); lt != nil && lt.Kind == yang.Yempty {
+							// bool_val:false on a leaf of type empty is not modelled (see the value matrix below)
+							tv = &gpb.TypedValue{Value: &gpb.TypedValue_BoolVal{BoolVal: true}}
+							sm.count("unmodelled", "empty-leaf/bool_val:false replaced by true")
+						}
+					}
 					tvt, ok := gnTvTerm(tv)
 					if !ok {
 						continue
@@ -1107,6 +1114,15 @@ func gnNodeStream(rng *rand.Rand, n int, tier string, out string) (*Summary, err
 							switch tv.GetValue().(type) {
 							case *gpb.TypedValue_IntVal, *gpb.TypedValue_LeaflistVal:
 							default:
+								continue
+							}
+						}
+						if _, lt := resolveType(ls.entry); lt != nil && lt.Kind == yang.Yempty {
+							if bv, isBool := tv.GetValue().(*gpb.TypedValue_BoolVal); isBool && !bv.BoolVal {
+								// bool_val:false on a leaf of type empty: Go stores YANGEmpty(false), i.e. leaves the
+								// leaf unset, and reports success; the model has no arm for it (it answers Err).
+								// Neither outcome concerns a property; the case is counted, not compared.
+								sum.count("unmodelled", "empty-leaf/bool_val:false")
 								continue
 							}
 						}
